@@ -282,6 +282,22 @@ func c07Run(c *Ctx) {
 		gen(nil, n)
 	}
 
+	// (viii) the scale layers of G (zz_verif_scale.go): every width / depth / literal length of a range, in every
+	// mode (placeholder, encryption, field names, selective) — fixed-size buffers and recursion limits
+	{
+		var sc *Case
+		st := Explore(func(x *X) { sc = genScaleCase(x, GenOpts{Scale: true, ScaleThorough: c.Thorough()}) },
+			ExploreOpts{Bound: 0, ShardDepth: 3, Shard: c.Shard, NShards: c.NShards}, func(x *X) {
+				line := sc.Root.JSON()
+				c.Distinct(line)
+				for _, fl := range c07FlagSets {
+					fl.Apply()
+					eval("scale", line, int64(len(line)), fl)
+				}
+			})
+		c.Count("scale_cases", st.Executions)
+	}
+
 	// (iv) nesting ladders, in-process for moderate depths
 	Flags{N: true}.Apply()
 	for _, depth := range []int{1, 2, 3, 10, 100, 1000, 3000} {
